@@ -277,6 +277,7 @@ class StackMachine(RuleBasedStateMachine):
                 lo0 = float(max(lo.reshape(-1)[0], -50.0))
                 hi0 = float(min(hi.reshape(-1)[0], 50.0))
                 a = data.draw(st.one_of(st.sampled_from([lo0, hi0]), st.floats(lo0, hi0, allow_nan=False)))
+                a = wrapref.safe_action(self.ex.ref, float(np.float32(a)))
             else:
                 m = self.ex.ref.map_mask(self.ex.ref.base.M[self.ex.s]) if self.ex.ref.base.M is not None else None
                 allowed = [i for i in range(self.ex.spec["nA"]) if m is None or m[i]]
